@@ -59,9 +59,14 @@ RefCasesFor(op, sm, rm) ==
            pre |-> [items |-> [i \in 1..n |-> RefCue(i, cs[i][1], cs[i][2], cs[i][3])],
                     styles |-> sm, regions |-> rm, snil |-> FALSE, rnil |-> FALSE]] :
             cs \in [1..n -> (DOMAIN sm \cup {""}) \X (DOMAIN rm \cup {""}) \X (DOMAIN sm \cup {""})]} : n \in 1..gN}
+\* lists without any definition, the maps empty or nil: inline attributes are all the styling there is
+BareCases(op) ==
+  {[op |-> op, a |-> 0, b |-> 0, pre2 |-> MkSubs(<<>>),
+    pre |-> [items |-> [i \in 1..n |-> RefCue(i, "", "", "")], styles |-> EmptyMap, regions |-> EmptyMap, snil |-> sn, rnil |-> rn]] :
+     n \in 1..3, sn \in BOOLEAN, rn \in BOOLEAN}
 RefCases(op) ==
   UNION {UNION {RefCasesFor(op, StyleMapSeq[i], rm) : rm \in RegionMaps(StyleMapSeq[i])} :
-           i \in {j \in DOMAIN StyleMapSeq : j % gPS = gP}}
+           i \in {j \in DOMAIN StyleMapSeq : j % gPS = gP}} \cup (IF gP = 0 THEN BareCases(op) ELSE {})
 
 Cases(z) ==
   CASE gOp = "add" -> AddCases(0)
